@@ -35,13 +35,18 @@ namespace c09
     }
 }
 
-static const int SHARDS = 8;     // value-index residues per type in the first choice
-static const long VALUE_CAP = 10000;
+static const int SHARDS = 8; // value-index residues per type in the first choice
+static long value_cap() { return c09::level ? 100000 : 10000; }
+namespace c09
+{
+    int level = 0;
+}
 
 MC_INIT
 {
     // every (type, value) of the family: first choice = type x value-residue (wide: sharding unit)
     mc::add_check(std::string(c09::framework) + ".type_family", [] {
+        c09::level = mc::thorough() ? 1 : 0;
         auto &T = c09::types();
         int nt = (int)T.size();
         int c = mc::choose(nt * SHARDS);
@@ -49,11 +54,11 @@ MC_INIT
         int res = c % SHARDS;
         if (!e.run)
             mc::harness_error("type slot %d not registered by any part TU", c / SHARDS);
-        long n = e.count;
-        if (n > VALUE_CAP)
+        long n = e.count();
+        if (n > value_cap())
         {
-            mc::cap(mc::fmt("%s: %ld values, first %ld enumerated", e.name.c_str(), n, VALUE_CAP));
-            n = VALUE_CAP;
+            mc::cap(mc::fmt("%s: %ld values, first %ld enumerated", e.name.c_str(), n, value_cap()));
+            n = value_cap();
         }
         long mine = n > res ? (n - res + SHARDS - 1) / SHARDS : 0;
         if (mine == 0)
@@ -95,11 +100,13 @@ int main(int argc, char **argv)
     if (getenv("C09_TYPES"))
     { // development aid: the generated family with its value counts
         long tot = 0;
+        c09::level = atoi(getenv("C09_TYPES")) > 1;
         for (size_t i = 0; i < c09::types().size(); i++)
         {
             auto &e = c09::types()[i];
-            printf("%3zu depth%d %7ld  %-24s %s\n", i, e.depth, e.count, e.cls.c_str(), e.name.c_str());
-            tot += e.count > VALUE_CAP ? VALUE_CAP : e.count;
+            long n = e.count();
+            printf("%3zu depth%d %7ld  %-24s %s\n", i, e.depth, n, e.cls.c_str(), e.name.c_str());
+            tot += n > value_cap() ? value_cap() : n;
         }
         printf("%zu types, %ld values\n", c09::types().size(), tot);
         for (auto &b : c09::bigs())
